@@ -12,6 +12,10 @@ File system: androguard.misc sees a copy of the `os` module whose path.isfile/ex
 file system (a set of paths).  FS_0 is empty and FS_m = FS_(m-1) + {the name returned under FS_(m-1)}: exactly the
 deviation "the first m names the function would like to use are taken".  A probe cap (256 probes per call) turns
 a non-terminating search into a verdict.
+Boundary grid: all-letter names of every basename length 226..232 x extension {none, '.', '.e', longest possible}
+x directory {'', 'd/e'} x force_nt x FS_0..FS_100 (every number of colliding files from 0 to 100, each judged).
+Decoy history: before every family the same basename is cleaned once in another directory (unique=True, result
+ignored), inside the shared family() so that replay does the same: state carried from one call to the next shows.
 Deep chains: for the names whose basename has >= 225 characters with c1, c2 in {letter, space, dot, '<'} (every
 directory part and replace, force_nt=False) the chain is continued to FS_12 (11 or more colliding files: the counter
 gets two digits); in the thorough tier the all-letter names with directory '' and replace '_' are continued to
@@ -60,6 +64,12 @@ DEEP_TOKENS = ["a", " ", ".", "<"]
 DEEP_MIN_LEN = 225          # input basename length from which the deep chain is run
 DEEP_M = 12
 DEEP_M_LONG = 101
+# boundary grid: basename length x number of colliding files as a full product around both boundaries
+GRID_LEN = [226, 227, 228, 229, 230, 231, 232]
+GRID_M = 100                # chain FS_0 .. FS_100, every member judged (covers 0, 1, 9, 10, 11, 99, 100 colliding files)
+GRID_EXT = ["none", 0, 1, "max"]
+GRID_DIRS = ["", "d/e"]
+DECOY_DIR = "decoy"         # history: the same basename is cleaned in another directory first, result ignored
 FILL, EXTFILL = "a", "e"
 LIMIT = 230
 PROBE_CAP = 256
@@ -127,6 +137,20 @@ def _deep_sizes(ctx):
     return names, calls, long_names
 
 
+def grid_specs(L):
+    """(i, c1, j, c2, k, dir, replace, nt) of the boundary grid for basename length L (all letters)."""
+    for e in GRID_EXT:
+        k = {"none": None, "max": L - 3}.get(e, e)
+        i = L - 2 - (0 if k is None else k + 1)
+        for d in GRID_DIRS:
+            for nt in NT:
+                yield (i, FILL, 0, FILL, k, d, REPLACE[0], nt)
+
+
+def _grid_chains():
+    return sum(1 for L in GRID_LEN for _ in grid_specs(L))
+
+
 def space(ctx):
     ln, ex = _lens(ctx)
     names = len(ln) * len(ln) * len(ex) * len(TOKENS) ** 2
@@ -138,13 +162,17 @@ def space(ctx):
                                     % (DEEP_MIN_LEN, DEEP_TOKENS, DEEP_M,
                                        "; all-letter names with dir '' and replace '_' to m=%d" % DEEP_M_LONG if ctx.thorough else ""),
                             "names": dn, "extra_calls": dc, "chains_to_%d" % DEEP_M_LONG: dl},
-            "names": names, "calls": names * len(DIRS) * len(REPLACE) * len(NT) * (1 + len(MS)) + dc,
+            "boundary_grid": {"basename_length": GRID_LEN, "extension": GRID_EXT, "dir": GRID_DIRS, "force_nt": NT,
+                              "colliding_files": [0, GRID_M], "chains": _grid_chains(), "calls": _grid_chains() * (GRID_M + 2)},
+            "decoy_history": "clean_file_name(%r/<same basename>, unique=True) before every family" % DECOY_DIR,
+            "names": names,
+            "calls": names * len(DIRS) * len(REPLACE) * len(NT) * (1 + len(MS)) + dc + _grid_chains() * (GRID_M + 2),
             "limit": LIMIT, "probe_cap": PROBE_CAP, "cwd_len": CWD_LEN}
 
 
 def shards(ctx):
     ln, _ = _lens(ctx)
-    return [(i, j) for i in ln for j in ln]
+    return [(i, j) for i in ln for j in ln] + [("grid", L) for L in GRID_LEN]
 
 
 # ------------------------------------------------------------------------------------- environment
@@ -186,6 +214,7 @@ class Env:
         from androguard import misc
         self.misc = misc
         self.fs = ModelFS()
+        self.decoys = 0
         pshim = types.ModuleType("c38_os_path")
         pshim.__dict__.update({k: v for k, v in os.path.__dict__.items() if not k.startswith("__")})
         pshim.isfile = pshim.exists = pshim.lexists = self.fs.isfile
@@ -268,6 +297,8 @@ def family(env, path, replace, nt, upto=MS[-1]):
     fs.files.clear()
     out = []
     in_dir = os.path.dirname(path)
+    call(env, DECOY_DIR + "/" + os.path.basename(path), True, replace, nt)      # decoy history, result ignored
+    env.decoys += 1
     res, err = call(env, path, False, replace, nt)
     out.append((False, 0, res, err, judge(in_dir, res, err, False, fs), fs.probes))
     for m in range(upto + 1):
@@ -291,7 +322,7 @@ def key_for(env, path, replace, nt, fam, unique, m, kind, sib):
     if nt:
         if not sib:
             saved = set(env.fs.files)
-            sib.append(family(env, path, replace, False))
+            sib.append(family(env, path, replace, False, len(fam) - 2))
             env.fs.files.clear()
             env.fs.files.update(saved)
         ref = sib[0][0] if not unique else sib[0][1 + m]
@@ -310,11 +341,13 @@ def _show(s):
     return repr(s)
 
 
-def check_input(env, acc, spec):
+def check_input(env, acc, spec, upto=None):
     i, c1, j, c2, k, d, replace, nt = spec
     path = build(i, c1, j, c2, k, d)
-    fam = family(env, path, replace, nt, deep_upto(env.ctx, *spec))
-    if len(fam) > 2 + MS[-1]:
+    fam = family(env, path, replace, nt, deep_upto(env.ctx, *spec) if upto is None else upto)
+    if upto is not None:
+        env.grid += 1
+    elif len(fam) > 2 + MS[-1]:
         env.deep += 1
     inb = path[path.rfind("/") + 1:]
     r0 = fam[0][2]
@@ -355,6 +388,7 @@ def run_shard(ctx, shard):
     i, j = shard
     env = Env()
     env.ctx = ctx
+    env.grid = 0
     env.local_outcomes = set()
     env.del_kept = 0
     env.deep = 0
@@ -362,7 +396,13 @@ def run_shard(ctx, shard):
         if env.cwd_len != CWD_LEN:
             acc.harness_error("scratch cwd has %d characters, expected %d" % (env.cwd_len, CWD_LEN))
             return acc
-        for c1 in TOKENS:
+        if i == "grid":
+            for spec in grid_specs(j):
+                check_input(env, acc, spec, GRID_M)
+            if j == 230:
+                fam = family(env, "a" * 230, "_", False, 11)
+                acc.sample({"input": "'a'*230", "result with 11 colliding files": _show(fam[12][2])})
+        for c1 in TOKENS if i != "grid" else ():
             for c2 in TOKENS:
                 for k in exts:
                     for d in DIRS:
@@ -373,15 +413,19 @@ def run_shard(ctx, shard):
             acc.outcomes.add(h8(oc))
         acc.count("fs_probes", env.fs.total)
         acc.count("deep_chains", env.deep)
+        acc.count("grid_chains", env.grid)
+        acc.count("decoy_calls", env.decoys)
         acc.count("del_0x7f_kept_not_judged", env.del_kept)
         if env.del_kept:
             acc.note("DEL (0x7f) is kept in results; not judged: the statement does not say whether DEL counts as a "
                      "control character and the function targets 0x00-0x1f")
-        if (i, j) == (1, 2):
+        if i == "grid":
+            pass
+        elif (i, j) == (1, 2):
             p = build(1, "<", 2, " ", 1, "d/e")
             fam = family(env, p, "_", False)
             acc.sample({"input": p, "unique=False": fam[0][2], "unique=True on FS_0..3": [x[2] for x in fam[1:]]})
-        if (i, j) == (228, 2):
+        if i != "grid" and (i, j) == (228, 2):
             p = build(228, " ", 2, "a", None, "")
             acc.sample({"input": _show(p), "unique=False": _show(family(env, p, "_", False)[0][2]),
                         "note": "space at the cut position"})
@@ -416,6 +460,10 @@ def finalize(ctx, acc):
     if acc.extra.get("deep_chains", 0) != sp["deep_chains"]["names"] * len(DIRS) * len(REPLACE) and not acc.harness_errors:
         acc.harness_error("deep chains run %d != stated %d" % (acc.extra.get("deep_chains", 0),
                                                                sp["deep_chains"]["names"] * len(DIRS) * len(REPLACE)))
+    if acc.extra.get("grid_chains", 0) != sp["boundary_grid"]["chains"] and not acc.harness_errors:
+        acc.harness_error("grid chains run %d != stated %d" % (acc.extra.get("grid_chains", 0), sp["boundary_grid"]["chains"]))
+    if acc.extra.get("decoy_calls", 0) < acc.n // 110:
+        acc.harness_error("decoy history was not run")
     if len(acc.outcomes) < 12:
         acc.harness_error("only %d distinct outcome classes: the space degenerated" % len(acc.outcomes))
     if acc.nt_disjoint < acc.n // 4:
